@@ -541,7 +541,7 @@ class Checker:
         return key, roots
 
     # -- a complete enumeration ------------------------------------------------------
-    def enumerate(self, cfg, full=None, want_keys=False):
+    def enumerate(self, cfg, full=None):
         """Run one configuration to exhaustion, checking every step.
 
         ``full`` = Counter of the plain enumeration's keys (for inclusion checks).
@@ -550,6 +550,7 @@ class Checker:
         subj, col = self.subj, self.col
         col.count("enumerations")
         keys, names = [], []
+        self.last_names = names
         step, prev_roots, last_op = 0, set(), "-"
         with rng_for(cfg), _CompileOnly(cfg.get("ctrl") and subj.corpus == "stdlib"):
             obj, gen = open_generator(subj, cfg)
@@ -638,9 +639,16 @@ class Checker:
                 got, last_op = _advance_and_abandon(subj, cfg, k, mode)
             except Unowned as exc:
                 self.harness(False, f"un-owned random draw {exc} in {cfg}")
+            except Exception as exc:  # noqa: BLE001 - the implementation crashed
+                self.violation(cfg, mode, f"enumeration-raises:{type(exc).__name__}",
+                               f"advancing to mutant {k}: {exc!r}", {"k": k, "mode": mode, "leg": "abandon"})
+                subj.snap.restore()
+                return False
         if got < k:
-            ok, _ = self.pristine(use_ref=False)
-            self.harness(ok, "exhausted generator left the tree mutated (reported by enumerate leg)")
+            # ran to exhaustion: that case belongs to (and is reported by) the enumerate leg
+            if subj.snap.dirty():
+                col.count("dirty_after_exhaustion_in_abandon_leg")
+                subj.snap.restore()
             return False
         ok, slots = self.pristine()
         if not ok:
@@ -814,6 +822,8 @@ def run_stdlib(col, name, tier, part):
         return
     # the other parts need the plain enumeration as a baseline (checked by the 'enum' part)
     keys = _plain_keys(ck, subj)
+    if keys is None:
+        return
     total = len(keys)
     full = collections.Counter(keys)
     if part.startswith("hom:"):
@@ -861,13 +871,25 @@ def run_stdlib(col, name, tier, part):
 
 
 def _plain_keys(ck, subj):
-    """Plain enumeration without the per-step oracle (already applied by the 'enum' part)."""
+    """Plain enumeration without the per-step oracle (already applied by the 'enum' part).
+
+    Returns None when the baseline itself misbehaves (raises, or leaves the tree mutated): that is
+    the 'enum' part's finding, the dependent part is skipped and counted.
+    """
     keys = []
     snap = subj.snap
-    for _ in make_mutator({"kind": "first"}).mutate(subj.tree, subj.module):
-        slots = snap.slots()
-        keys.append(tuple(sorted((s.holder, s.field, -1 if s.pos is None else s.pos, _dump_any(s.new))
-                                 for s in slots)))
+    try:
+        for _ in make_mutator({"kind": "first"}).mutate(subj.tree, subj.module):
+            slots = snap.slots()
+            keys.append(tuple(sorted((s.holder, s.field, -1 if s.pos is None else s.pos, _dump_any(s.new))
+                                     for s in slots)))
+    except Exception:  # noqa: BLE001
+        keys = None
+    if snap.dirty():
+        snap.restore()
+        keys = None
+    if keys is None:
+        ck.col.count("baseline_unusable")
     return keys
 
 
@@ -907,10 +929,9 @@ def gen_plan(tier):
             out.append(([["plain", list(b)]], "medium"))
         for n in names:
             if n != "super":
-                out.append(([["method", with_super([n])]], "full"))
+                out.append(([["method", with_super([n])]], "medium"))
         for n in names:
             out.append(([["deco", [n]], ["method", ["ret"]]], "medium"))
-            out.append(([["deco", ["ret"]], ["method", [n]]], "medium"))
     else:
         for kind in cm.KINDS:
             for k in (1, 2):
@@ -942,8 +963,8 @@ def std_plan(tier, totals):
                 continue
             tasks.append((name, "abandon-1op"))
             tasks.append((name, "hom:FirstToLast:2:identity:count"))
-            tasks.append((name, "hom:Random:2:reverse:nocount"))
             if small:
+                tasks.append((name, "hom:Random:2:reverse:nocount"))
                 tasks.append((name, "hom:EachChoice:1:identity:count"))
                 tasks.append((name, "hom:BetweenOperators:2:identity:nocount"))
                 tasks.append((name, "ctrl"))
@@ -1021,6 +1042,8 @@ def run(ctx):
                 "reference_checks", "ctrl_modules_created"):
         ctx.require(c.get(key, 0) > 0, f"vacuous: no {key}")
     ctx.require(len(sets.get("nontrivial", ())) >= 2, "vacuous: fewer than two modules with mutants")
+    ctx.require(not c.get("baseline_unusable") or ctx.col.violations,
+                "a baseline enumeration failed but the per-step leg reported nothing")
     slow = sorted(ctx.col.notes.pop("task_seconds", []), reverse=True)
     ctx.note("slowest_tasks", slow[:8])
     ctx.note("tasks", len(jobs))
@@ -1034,7 +1057,7 @@ def run(ctx):
     ctx.exhaustive = True
     ctx.rule = ("every generated module of the tier (menu of 37 statements exercising all 30 operators; quick: "
                 "plain functions with <=2 statements, decorated functions / overriding methods with 1, methods "
-                "with super() + 1, decorated+method pairs; thorough: every one-function module with <=2 "
+                "with super() + 1, decorated function + method returning; thorough: every one-function module with <=2 "
                 "statements, every plain/plain and decorated/method pair with 1+1, plain functions with 3, methods "
                 "with super() + 2) and 29 stdlib modules x mutator configurations (plain, reorder, every cap "
                 "0..min(total,12) [thorough: 0..total] x 4 sampling answers, 4 HOM strategies x order 1/2 x 3 "
@@ -1067,5 +1090,5 @@ def replay(ctx, data):
     if data.get("leg") == "abandon":
         ck.abandon(cfg, data["k"], data["mode"])
     else:
-        full = collections.Counter(_plain_keys(ck, subj))
+        full = collections.Counter(_plain_keys(ck, subj) or [])
         ck.enumerate(cfg, full)
